@@ -674,4 +674,141 @@ theorem foldl_updKV_filter (l : List Slot) (m : Nat → Val) :
       simp only [List.filter, hk, Option.isSome_some, List.foldl_cons]
       exact ih _
 
+/-! ### `janet_struct_end` and struct literals with pairwise distinct keys -/
+
+/-- **`janet_struct_end`**: from a struct under construction satisfying `BInv` — whether or not every announced entry
+arrived (nil values and NaN / nil keys are skipped by `janet_struct_put`, the struct is then rebuilt with the
+entries that went in) — the result satisfies the struct invariant, holds exactly the entries of the builder, and its
+`length` is the number of live buckets -/
+theorem structEnd_spec (h : Nat → Nat) (rank : Nat → Nat) (hr : ∀ a b, rank a = rank b → a = b) (b : StructB)
+    (inv : BInv h b) :
+    SInv h (structEnd h rank b) ∧ (∀ k v, Ent (structEnd h rank b).data k v ↔ Ent b.data k v) ∧
+    (structEnd h rank b).length = b.filled ∧ nLive (structEnd h rank b).data = (structEnd h rank b).length ∧
+    (structEnd h rank b).proto = none := by
+  by_cases c : b.filled ≠ b.length
+  · have e : structEnd h rank b = Table.toStruct h rank { count := b.filled, deleted := 0, data := b.data } := by
+      unfold structEnd Table.toStruct
+      rw [if_pos c]
+      have r := putAll_spec h rank hr (liveOf b.data) (structBegin b.filled) (BInv.begin h b.filled)
+        (mem_liveOf inv.d) (liveOf_pairwise inv.d)
+        (fun _ _ k _ x hx => by
+          have : (slotAt (Array.replicate (structCap b.filled) Slot.empty) x).key = some k := hx
+          rw [slotAt_replicate] at this; cases this)
+        (by show 0 + (liveOf b.data).length ≤ b.filled; rw [liveOf_length, inv.cnt]; omega)
+      have hf : (putAll h rank (structBegin b.filled) (liveOf b.data)).filled = (putAll h rank (structBegin b.filled) (liveOf b.data)).length := by
+        rw [r.2.1, r.2.2.1]; show 0 + (liveOf b.data).length = b.filled; rw [liveOf_length, inv.cnt]; omega
+      show _ = structEnd h rank (putAll h rank (structBegin b.filled) (liveOf b.data))
+      unfold structEnd
+      rw [if_neg (by rw [hf]; simp)]
+      rfl
+    have r := toStruct_spec h rank hr { count := b.filled, deleted := 0, data := b.data } inv.d inv.cnt.symm
+    rw [e]
+    exact ⟨r.1, r.2.2.2.1, r.2.1, r.2.2.2.2.2, r.2.2.1⟩
+  · have hfl : b.filled = b.length := by
+      by_cases c' : b.filled = b.length
+      · exact c'
+      · exact absurd c' c
+    have e : structEnd h rank b = { length := b.length, data := b.data } := by
+      unfold structEnd
+      rw [if_neg c]
+    rw [e]
+    refine ⟨⟨inv.d, inv.nt⟩, fun _ _ => Iff.rfl, hfl.symm, ?_, rfl⟩
+    show nLive b.data = b.length
+    rw [inv.cnt, hfl]
+
+/-- the `janet_struct_put` calls of a struct literal / `struct` / `struct/with-proto`: one per (key, value) argument -/
+def putArgs (h : Nat → Nat) (rank : Nat → Nat) (b : StructB) (kvs : List (Nat × Val)) : StructB :=
+  kvs.foldl (fun b kv => structPut h rank true b kv.1 kv.2) b
+
+theorem structPut_nil (h : Nat → Nat) (rank : Nat → Nat) (replace : Bool) (st : StructB) (key : Nat) :
+    structPut h rank replace st key vNil = st := by
+  unfold structPut
+  rw [if_pos rfl]
+
+theorem putArgs_spec (h : Nat → Nat) (rank : Nat → Nat) (hr : ∀ a b, rank a = rank b → a = b) :
+    ∀ (l : List (Nat × Val)) (b : StructB), BInv h b →
+      l.Pairwise (fun s s' => s.1 ≠ s'.1) →
+      (∀ s ∈ l, ∀ x, (slotAt b.data x).key ≠ some s.1) →
+      b.filled + l.length ≤ b.length →
+      BInv h (putArgs h rank b l) ∧ (putArgs h rank b l).length = b.length ∧
+      (putArgs h rank b l).filled ≤ b.filled + l.length ∧
+      ∀ k v, Ent (putArgs h rank b l).data k v ↔ (Ent b.data k v ∨ ((k, v) ∈ l ∧ v ≠ vNil)) := by
+  intro l
+  induction l with
+  | nil =>
+    intro b inv _ _ _
+    refine ⟨inv, rfl, Nat.le_refl _, ?_⟩
+    intro k v
+    simp [putArgs]
+  | cons s rest ih =>
+    intro b inv hpw habs hlen
+    have e : putArgs h rank b (s :: rest) = putArgs h rank (structPut h rank true b s.1 s.2) rest := by
+      unfold putArgs
+      rw [List.foldl_cons]
+    rw [e]
+    have hpw' := List.pairwise_cons.mp hpw
+    simp only [List.length_cons] at hlen
+    by_cases hv : s.2 = vNil
+    · rw [hv, structPut_nil]
+      obtain ⟨q1, q2, q3, q4⟩ := ih b inv hpw'.2 (fun s' hs' => habs s' (by simp [hs'])) (by omega)
+      refine ⟨q1, q2, by simp only [List.length_cons]; omega, ?_⟩
+      intro k v
+      rw [q4 k v]
+      constructor
+      · rintro (hb | ⟨hm, hn⟩)
+        · left; exact hb
+        · right; exact ⟨by simp [hm], hn⟩
+      · rintro (hb | ⟨hm, hn⟩)
+        · left; exact hb
+        · rcases List.mem_cons.mp hm with c | c
+          · rw [← c] at hv; exact absurd hv hn
+          · right; exact ⟨c, hn⟩
+    · obtain ⟨p1, p2, p3, p4⟩ := structPut_spec h rank hr true b s.1 s.2 inv (habs s (by simp)) hv (by omega)
+      have habs' : ∀ s' ∈ rest, ∀ x, (slotAt (structPut h rank true b s.1 s.2).data x).key ≠ some s'.1 := by
+        intro s' hs'
+        rw [absent_iff_noEnt]
+        intro v hent
+        rcases (p4 s'.1 v).mp hent with ⟨ek, _⟩ | hent'
+        · exact hpw'.1 s' hs' ek.symm
+        · exact (absent_iff_noEnt _ _).mp (habs s' (by simp [hs'])) v hent'
+      obtain ⟨q1, q2, q3, q4⟩ := ih (structPut h rank true b s.1 s.2) p1 hpw'.2 habs' (by rw [p2, p3]; omega)
+      refine ⟨q1, by rw [q2, p3], by rw [p2] at q3; simp only [List.length_cons]; omega, ?_⟩
+      intro k v
+      rw [q4 k v, p4 k v]
+      constructor
+      · rintro ((⟨ek, ev⟩ | hb) | ⟨hm, hn⟩)
+        · right; refine ⟨by rw [ek, ev]; simp, by rw [ev]; exact hv⟩
+        · left; exact hb
+        · right; exact ⟨by simp [hm], hn⟩
+      · rintro (hb | ⟨hm, hn⟩)
+        · left; right; exact hb
+        · rcases List.mem_cons.mp hm with c | c
+          · left; left
+            rw [← c]
+            exact ⟨rfl, rfl⟩
+          · right; exact ⟨c, hn⟩
+
+/-- **a struct literal with pairwise distinct keys** (`janet_struct_begin(n)`, at most `n` × `janet_struct_put` — pairs
+with a nil / NaN key are skipped by the caller's loop —, `janet_struct_end`): struct invariant, and its entries are exactly the arguments with a non-nil value -/
+theorem structLiteral_spec (h : Nat → Nat) (rank : Nat → Nat) (hr : ∀ a b, rank a = rank b → a = b)
+    (kvs : List (Nat × Val)) (hd : kvs.Pairwise (fun s s' => s.1 ≠ s'.1)) (n : Nat) (hn : kvs.length ≤ n) :
+    SInv h (structEnd h rank (putArgs h rank (structBegin n) kvs)) ∧
+    (∀ k v, Ent (structEnd h rank (putArgs h rank (structBegin n) kvs)).data k v ↔ ((k, v) ∈ kvs ∧ v ≠ vNil)) ∧
+    nLive (structEnd h rank (putArgs h rank (structBegin n) kvs)).data =
+      (structEnd h rank (putArgs h rank (structBegin n) kvs)).length := by
+  obtain ⟨p1, _, _, p4⟩ := putArgs_spec h rank hr kvs (structBegin n) (BInv.begin h n) hd
+    (fun _ _ x hx => by
+      have : (slotAt (Array.replicate (structCap n) Slot.empty) x).key = some _ := hx
+      rw [slotAt_replicate] at this; cases this)
+    (by show 0 + kvs.length ≤ n; omega)
+  have r := structEnd_spec h rank hr _ p1
+  refine ⟨r.1, ?_, r.2.2.2.1⟩
+  intro k v
+  rw [r.2.1 k v, p4 k v]
+  constructor
+  · rintro (hb | hb)
+    · exact absurd hb (ent_replicate _ k v)
+    · exact hb
+  · intro hb; right; exact hb
+
 end JanetModel.Table
